@@ -53,6 +53,7 @@ ASIZES = ['divides', 'ragged-both', 'ragged-t', 'ragged-f', 'oversize', 'default
 
 def required(tier):
     b = {f'api:{k}': 100 for k in ('gen', 'fil', 'params', 'mean', 'array')}
+    b.update({f'api-x-orientation:{k}:{o}': 50 for k in ('gen', 'fil', 'params', 'mean') for o in ('asc', 'desc')})
     b.update({'orient:asc': 200, 'orient:desc': 200, 'route:raw': 200, 'route:save_fil': 200})
     b.update({f'fit:{k}': 100 for k in FITS})
     b.update({f'shift:{k}': 100 for k in SHIFTS})
@@ -214,15 +215,15 @@ def gen_cases(seed, tier):
     rng = np.random.default_rng([seed, 19])
     n = 6000 if tier == 'quick' else 300000
     cases = []
-    qa = qf = 0
+    qk = {}
     for i in range(n):
         kind = KINDS[i % 10]
+        q = qk.get(kind, 0)          # one stratum counter PER API, so that every API meets every orientation / writer / fit
+        qk[kind] = q + 1
         if kind == 'array':
-            c = _array_case(rng, qa, tier)
-            qa += 1
+            c = _array_case(rng, q, tier)
         else:
-            c = _file_case(rng, qf, tier)
-            qf += 1
+            c = _file_case(rng, q, tier)
         c['kind'] = kind
         cases.append(c)
     return cases
@@ -425,6 +426,7 @@ def run_file(c, R, stg):
     for k in ('kind', 'route', 'fit', 'shift', 'tsel', 'hdr'):
         R.bucket(('api' if k == 'kind' else k) + ':' + c[k])
     R.bucket('orient:asc' if c['asc'] else 'orient:desc')
+    R.bucket(f"api-x-orientation:{c['kind']}:{'asc' if c['asc'] else 'desc'}")
     try:
         if c.get('_idx', 0) % 4 == 1:
             # history: this very path held ANOTHER observation (other geometry and header) that the library has already split
